@@ -31,7 +31,7 @@ EXTENDS Naturals, Integers, FiniteSets, Sequences
 CONSTANTS Worker, Rounds, MaxHelpers, Variant,
           DupRounds   \* rounds that get a second, independent wake-up (a timer racing the notifier)
 ASSUME Variant \in {"ok", "abort_if_still_active", "abort_never_retry", "no_tag_on_wake",
-                    "worker_ignores_cas"}
+                    "worker_ignores_cas", "cas_ignores_snapshot"}
 
 VARIABLES word,      \* [st, tag]
           queue,     \* number of run-queue entries referring to T
@@ -163,9 +163,11 @@ KLoad(i) ==
 
 WakeTag(t) == IF Variant = "no_tag_on_wake" THEN t ELSE t + 1
 
+\* "cas_ignores_snapshot": restore_state compares against the freshly loaded word instead of the caller's
+\* checked snapshot, so the exchange always succeeds (seeded change C01-3)
 KCas(i) ==
     /\ kpc[i] = "cas"
-    /\ IF word = kprev[i]
+    /\ IF word = kprev[i] \/ Variant = "cas_ignores_snapshot"
           THEN word' = W("pending", WakeTag(word.tag)) /\ kpc' = [kpc EXCEPT ![i] = "sched"]
           ELSE UNCHANGED word /\ kpc' = [kpc EXCEPT ![i] = "load"]
     /\ UNCHANGED <<queue, wpc, wseen, worig, wnext, tpc, round, regs, kprev, hpc, hprev, hseen, everReg, due, resumed, entered>>
